@@ -1,8 +1,9 @@
 import TaurexModel.Proto
 import TaurexModel.Priors
+import TaurexModel.FittableTable
 
 namespace Taurex.Ops.C08
-open Taurex.Proto Taurex.Priors
+open Taurex.Proto Taurex.Priors Taurex.FittableTable
 
 /-- inverse of `harness.common.S` -/
 def unescAux : List Char → List Char
@@ -136,7 +137,38 @@ def createOp (args : List String) : Option String :=
     | .domain => pure "3"
     | .unsupported => pure "4") args
 
+/-- one declaration on the wire: `name optMode optFit optBounds` (mode 0 linear / 1 log); an absent keyword is `0` -/
+def declP : P (Decl Float) := do
+  let name ← str
+  let m ← optOf nat
+  let f ← optOf bool
+  let b ← optOf (do let a ← flt; let b ← flt; pure (a, b))
+  pure { name := name, mode := m.map (fun k => if k == 0 then FitMode.linear else FitMode.log), fit := f, bounds := b }
+
+/-- `c08.declared decls hist z10 z90 us zs xs` → `0` when a declaration / `modify_bounds` raises, else `1` + for every
+    entry of the table `name mode fit b0 b1` + (`0` when no default prior exists | `1` + its evaluation as in `c08.prior`):
+    the default prior of every DECLARED parameter after the object's `modify_bounds` history -/
+def declaredOp (args : List String) : Option String :=
+  run (do
+    let decls ← listOf declP
+    let hist ← listOf (do let n ← str; let a ← flt; let b ← flt; pure (n, a, b))
+    let z10 ← flt
+    let z90 ← flt
+    let us ← listOf flt
+    let zs ← listOf flt
+    let xs ← listOf flt
+    match declaredTable decls hist with
+    | none => pure "0"
+    | some t =>
+      pure ("1 " ++ fList (fun (e : Entry Float) =>
+        let m : Nat := if e.mode = FitMode.log then 1 else 0
+        let d := match defaultOf t e.name with
+          | some (some p) => "1 " ++ fPriorEval p z10 z90 us zs xs
+          | _ => "0"
+        s!"{esc e.name} {m} {fB e.fit} {fF e.b0} {fF e.b1} {d}") t)) args
+
 def ops : List Op :=
-  [("c08.prior", priorOp), ("c08.parse", parseOp), ("c08.print", printOp), ("c08.create", createOp)]
+  [("c08.prior", priorOp), ("c08.parse", parseOp), ("c08.print", printOp), ("c08.create", createOp),
+   ("c08.declared", declaredOp)]
 
 end Taurex.Ops.C08
